@@ -432,17 +432,19 @@ Lemma new_hold_chg s0 k conn c' s1 r f X Y aev s' :
   new_lock s0 k conn c' = (s1, r) ->
   (forall m x, href_m (f m) x -> href_m m x) ->
   keep (updm (add_lock s1 k r) k f) X -> add_expried X k r = (Y, aev) -> keep Y s' ->
-  r = next s0 /\ chg1 s0 s' r (fun v => v = (c', conn, true, false)) /\ rinfos aev = [].
+  (r = next s0 /\ r < next s') /\ chg1 s0 s' r (fun v => v = (c', conn, true, false)) /\ rinfos aev = [].
 Proof.
   intros Hn Hf K1 He K2. destruct (new_lock_tr _ _ _ _ _ _ Hn) as (Hr & T & P & _).
-  split; auto.
   assert (Hb : ovr (base s0) r (c', conn, true, true) r = Some (c', conn, true, true))
     by (unfold ovr; rewrite N.eqb_refl; auto).
   assert (T1 := add_lock_tr _ _ _ _ _ k r _ T Hb ltac:(intros Habs; exfalso; apply P; auto)).
   assert (T2 : tr idg (addA (href s0) r) (ovr (base s0) r (c', conn, true, true)) (next s0 + 1) X).
   { eapply tr_keep; [exact K1|]. eapply tr_keep; [apply keep_updm; exact Hf|exact T1]. }
-  destruct (add_expried_tr _ _ _ _ _ _ _ _ _ He T2) as [T3 R]. split; [|apply rinfos_noreply; auto].
-  eapply chg1_weaken; [|eapply tr_chg1; [eapply tr_keep; [exact K2|exact T3]| | |lia]].
+  destruct (add_expried_tr _ _ _ _ _ _ _ _ _ He T2) as [T3 R].
+  assert (T4 := tr_keep _ _ _ _ _ _ K2 T3).
+  split; [split; auto; assert (N4 := tr_n _ _ _ _ _ T4); lia|].
+  split; [|apply rinfos_noreply; auto].
+  eapply chg1_weaken; [|eapply tr_chg1; [exact T4| | |lia]].
   - intros v ->. unfold at_ref. rewrite N.eqb_refl. reflexivity.
   - at_ref_off.
   - intros x [->|Hx]; auto.
@@ -450,11 +452,12 @@ Qed.
 
 Lemma new_wait_chg s0 k conn c' s1 r s' :
   new_lock s0 k conn c' = (s1, r) -> keep (add_timeout (add_wait_lock s1 k r) r) s' ->
-  r = next s0 /\ chg1 s0 s' r (fun v => v = (c', conn, false, true)) /\ (forall x, href s' x -> href s0 x).
+  (r = next s0 /\ r < next s') /\ chg1 s0 s' r (fun v => v = (c', conn, false, true)) /\ (forall x, href s' x -> href s0 x).
 Proof.
-  intros Hn K. destruct (new_lock_tr _ _ _ _ _ _ Hn) as (Hr & T & P & _). split; auto.
+  intros Hn K. destruct (new_lock_tr _ _ _ _ _ _ Hn) as (Hr & T & P & _).
   assert (T1 : tr (at_ref idg r (set_to false)) (href s0) (ovr (base s0) r (c', conn, true, true)) (next s0 + 1) s').
   { eapply tr_keep; [exact K|]. apply add_timeout_tr. eapply tr_keep; [apply add_wait_lock_keep|exact T]. }
+  split; [split; auto; assert (N1 := tr_n _ _ _ _ _ T1); lia|].
   split; [|apply (tr_h _ _ _ _ _ T1)].
   eapply chg1_weaken; [|eapply tr_chg1; [exact T1| | |lia]].
   - intros v ->. unfold at_ref. rewrite N.eqb_refl. reflexivity.
@@ -505,14 +508,95 @@ Proof.
   - auto.
 Qed.
 
+(* ------------------------------------------------------------------ the queued request sits in the wait queue *)
+Definition has_mgr (s : db) (k : N) : Prop := aget (mgrs s) k <> None.
+
+Lemma has_mgr_updm s k f k' : has_mgr s k' -> has_mgr (updm s k f) k'.
+Proof.
+  unfold has_mgr. rewrite aget_mgrs_updm. destruct (k =? k') eqn:E; auto.
+  apply N.eqb_eq in E. subst. destruct (aget (mgrs s) k'); cbn; congruence.
+Qed.
+Lemma has_mgr_same s s' k : mgrs s' = mgrs s -> has_mgr s k -> has_mgr s' k.
+Proof. unfold has_mgr. intros ->. auto. Qed.
+
+Lemma free_lock_has_mgr s r k : has_mgr s k -> has_mgr (free_lock s r) k.
+Proof.
+  unfold free_lock. destruct (aget (store s) r); auto. intros H. apply has_mgr_updm. exact H.
+Qed.
+
+Lemma unref_has_mgr s r k : has_mgr s k -> has_mgr (unref s r) k.
+Proof.
+  unfold unref. destruct (aget (store s) r); auto. intros H.
+  destruct (_ =? 0); [apply free_lock_has_mgr|]; exact H.
+Qed.
+
+Lemma wq_compact_has_mgr items k : forall s s' kept, wq_compact s items = (s', kept) -> has_mgr s k -> has_mgr s' k.
+Proof.
+  induction items as [|r rest IH]; cbn; intros s s' kept H M.
+  - inv H. auto.
+  - destruct (dead_waiter (getl s r)).
+    + eapply IH; eauto. apply unref_has_mgr; auto.
+    + destruct (wq_compact s rest) as [s1 k1] eqn:E. inv H. eauto.
+Qed.
+
+Lemma prio_insert_in s r p : forall items, In r (prio_insert s items r p).
+Proof. induction items as [|x rest IH]; cbn; auto. destruct (_ <? p); cbn; auto. Qed.
+
+Lemma wq_push_spec s q r s' q' k :
+  wq_push s q r = (s', q') -> In r (wq_items q') /\ (has_mgr s k -> has_mgr s' k).
+Proof.
+  unfold wq_push, wq_items. intros H.
+  destruct (wq_mode q).
+  - destruct (wq_cap q =? 0); [inv H; cbn; auto|].
+    destruct (wq_len q <? wq_cap q); [inv H; cbn; split; auto; rewrite !in_app_iff; cbn; auto|].
+    destruct (wq_fast q) as [|a rest]; [inv H; cbn; auto|].
+    destruct (wq_compact s (a :: rest)) as [s1 kept] eqn:Ec.
+    assert (M := wq_compact_has_mgr _ k _ _ _ Ec).
+    destruct (_ <? wq_len q); [inv H; cbn; split; auto; rewrite !in_app_iff; cbn; auto|].
+    destruct (wq_cap q <=? 128); inv H; cbn; split; auto; rewrite !in_app_iff; cbn; auto.
+  - inv H. cbn. split; auto. rewrite !in_app_iff. cbn. auto.
+  - inv H. cbn. split; auto. rewrite in_app_iff. right. apply prio_insert_in.
+Qed.
+
+Lemma add_wait_lock_waiting s k r : has_mgr s k -> waiting_in (add_wait_lock s k r) k r.
+Proof.
+  intros M. unfold add_wait_lock.
+  match goal with |- context [wq_push s ?q r] => destruct (wq_push s q r) as [s1 q1] eqn:E end.
+  destruct (wq_push_spec _ _ _ _ _ k E) as [I M1]. specialize (M1 M).
+  unfold waiting_in, getm. rewrite aget_mgrs_updm, N.eqb_refl, mgrs_updl.
+  unfold has_mgr in M1. destruct (aget (mgrs s1) k) as [m|]; [|congruence].
+  cbn. exists q1. auto.
+Qed.
+
+Lemma add_timeout_mgrs s r : mgrs (add_timeout s r) = mgrs s.
+Proof.
+  unfold add_timeout. destruct (QUEUE_MAX_WAIT <? _); cbn; rewrite ?mgrs_updl; cbn; rewrite ?mgrs_updl; reflexivity.
+Qed.
+
+Lemma waiting_in_same s s' k r : mgrs s' = mgrs s -> waiting_in s k r -> waiting_in s' k r.
+Proof. unfold waiting_in, getm. intros ->. auto. Qed.
+
+Lemma new_wait_waiting S0 k conn c' s1 r S' :
+  new_lock S0 k conn c' = (s1, r) -> has_mgr S0 k -> mgrs S' = mgrs (add_wait_lock s1 k r) -> waiting_in S' k r.
+Proof.
+  intros Hn M E. eapply waiting_in_same; [exact E|]. apply add_wait_lock_waiting.
+  destruct (new_lock_tr _ _ _ _ _ _ Hn) as (_ & _ & _ & _ & _ & _ & Hm).
+  eapply has_mgr_same; [exact Hm|]. apply has_mgr_updm. exact M.
+Qed.
+
 (* ------------------------------------------------------------------ Lock *)
+Lemma getm_bump_setm_new s k f : getm (bump f (setm s k new_mgr)) k = new_mgr.
+Proof. unfold getm. change (mgrs (bump f (setm s k new_mgr))) with (aset (mgrs s) k new_mgr). rewrite aget_aset_same. reflexivity. Qed.
+
+Lemma mgrs_bump f s : mgrs (bump f s) = mgrs s. Proof. reflexivity. Qed.
+
 Definition lock_sum (s : db) (conn : N) (c : cmd) (s' : db) (ev : list event) (w : option wake) : Prop :=
   (exists res, keep s s' /\ rinfos ev = [(conn, c_req c, res)] /\ res <> R_EXPRIED)
-  \/ (exists r c', r = next s /\ c_req c' = c_req c /\ core_cmd c'
+  \/ (exists r c', (r = next s /\ r < next s') /\ c_req c' = c_req c /\ core_cmd c'
         /\ chg1 s s' r (fun v => v = (c', conn, true, false)) /\ rinfos ev = [(conn, c_req c, R_SUCCED)])
-  \/ (exists r c', r = next s /\ c_req c' = c_req c /\ core_cmd c'
+  \/ (exists r c', (r = next s /\ r < next s') /\ c_req c' = c_req c /\ core_cmd c'
         /\ chg1 s s' r (fun v => v = (c', conn, false, true)) /\ (forall x, href s' x -> href s x)
-        /\ rinfos ev = [] /\ w = None)
+        /\ rinfos ev = [] /\ w = None /\ waiting_in s' (c_key c) r)
   \/ (exists r c' res, href s r /\ c_req c' = c_req c /\ core_cmd c'
         /\ chg1 s s' r (fun v => v_cmd v = c' /\ v_conn v = conn /\ v_to v = l_timeouted (getl s r))
         /\ rinfos ev = [(conn, c_req c, res)] /\ (res = R_SUCCED \/ res = R_LOCKED_ERROR)).
@@ -550,6 +634,8 @@ Proof.
   all: repeat match goal with HP : process_data _ _ _ _ _ = _ |- _ =>
          rewrite process_data_nodata in HP by congruence; injs end.
   all: try congruence.
+  all: try solve [exfalso; match goal with HB : (0 <? m_locked (getm (bump _ (setm _ _ new_mgr)) _)) = true |- _ =>
+         rewrite getm_bump_setm_new in HB; vm_compute in HB; discriminate HB end].
   all: try solve [exfalso; rewrite ?Htf1 in *; rewrite ?Hef1 in *;
          repeat match goal with HB : _ && _ = true |- _ => apply andb_true_iff in HB; destruct HB end; congruence].
   (* A: no record *)
@@ -575,18 +661,22 @@ Proof.
     match goal with Hn : new_lock ?S0 ?k' ?conn' ?c' = (?s1, ?r), HE : add_expried ?X _ ?r = (?Y, ?aev) |- lock_sum _ _ _ ?S' _ _ =>
       assert (K1 : keep (updm (add_lock s1 k' r) k' (fun m => m <| m_locked := add32 (m_locked m) 1 |>)) X) by apply keep_refl;
       assert (K2 : keep Y S') by keep_x;
-      destruct (new_hold_chg S0 k' conn' c' s1 r _ X Y aev S' Hn Hf K1 HE K2) as (Hr & Hc & Hrn);
-      right; left; exists r, c'; split; [rewrite Hr; reflexivity|];
+      destruct (new_hold_chg S0 k' conn' c' s1 r _ X Y aev S' Hn Hf K1 HE K2) as ((Hr & Hlt) & Hc & Hrn);
+      right; left; exists r, c'; split; [split; [rewrite Hr; reflexivity|exact Hlt]|];
       split; [first [exact Hreq1|reflexivity]|]; split; [assumption|];
       split; [eapply chg1_pre; [|exact Hc]; keep_x|norep2; rewrite ?Hrn; cbn; rewrite ?Hreq1; reflexivity]
     end].
   (* C: queued *)
   all: try solve [
     match goal with Hn : new_lock ?S0 ?k' ?conn' ?c' = (?s1, ?r) |- lock_sum _ _ _ ?S' _ _ =>
-      destruct (new_wait_chg S0 k' conn' c' s1 r S' Hn ltac:(keep_x)) as (Hr & Hc & Hh);
-      right; right; left; exists r, c'; split; [rewrite Hr; reflexivity|];
+      destruct (new_wait_chg S0 k' conn' c' s1 r S' Hn ltac:(keep_x)) as ((Hr & Hlt) & Hc & Hh);
+      right; right; left; exists r, c'; split; [split; [rewrite Hr; reflexivity|exact Hlt]|];
       split; [first [exact Hreq1|reflexivity]|]; split; [assumption|];
       split; [eapply chg1_pre; [|exact Hc]; keep_x|];
-      split; [intros x Hx; apply Hh in Hx; revert Hx; apply keep_h; keep_x|split; reflexivity]
+      split; [intros x Hx; apply Hh in Hx; revert Hx; apply keep_h; keep_x|];
+      split; [reflexivity|]; split; [reflexivity|];
+      eapply new_wait_waiting; [exact Hn| |rewrite mgrs_bump, mgrs_updl, add_timeout_mgrs; reflexivity];
+      first [ unfold has_mgr; fold k; rewrite Hmgr; discriminate
+            | unfold has_mgr; fold k; change (aget (aset (mgrs s) k new_mgr) k <> None); rewrite aget_aset_same; discriminate ]
     end].
 Qed.
